@@ -1,5 +1,5 @@
 """Per-property case generators (deterministic in the rng passed in)."""
-import itertools, random
+import itertools, random, re
 import gen
 
 
@@ -370,9 +370,9 @@ def gen_C20(rng, tier):
 
 # ------------------------------------------------------------------ C01-C04: arbitrary and malformed text
 SOUP_CHARS = list("abcxyzIPE019_ \t\n\r;,{}()[]<>=.-+@\"/*#$%&'\\:?|~^`!") + \
-    ["é", "ß", "日", "😀", "\u0085", " ", " ", " ", " ", " ", "　", "\x0b", "\x0c", "\x00",
-     "١", "２", "́", "‍", "﻿"]
-INJECT = ["é", "日本", "😀", "　", " ", " ", "\u0085", "\r\n", "\t", " ", "́", "Größe", "👨‍👩‍👦"]
+    ["\u00e9", "\u00df", "\u65e5", "\U0001f600", "\u0085", "\u00a0", "\u1680", "\u2003", "\u2028", "\u2029", "\u3000", "\x0b", "\x0c", "\x00",
+     "\u0661", "\uff12", "\u0301", "\u200d", "\ufeff"]
+INJECT = ["\u00e9", "\u65e5\u672c", "\U0001f600", "\u3000", "\u00a0", "\u2003", "\u0085", "\r\n", "\t", "\u2028", "\u0301", "Gr\u00f6\u00dfe", "\U0001f468\u200d\U0001f469\u200d\U0001f466"]
 
 
 def char_soup(rng, n):
@@ -392,7 +392,7 @@ def inject_unicode(rng, text):
         c = text[i]
         out.append(c)
         if c in " \n\t" and rng.random() < 0.15:
-            out.append(rng.choice(["　", " ", " ", "\u0085", " ", "\r\n"]))
+            out.append(rng.choice(["\u3000", "\u00a0", "\u2003", "\u0085", "\u2028", "\r\n"]))
         elif c == '"' and rng.random() < 0.5:
             out.append(rng.choice(INJECT[:3]))
         elif text.startswith("/*", i) and rng.random() < 0.7:
@@ -442,4 +442,192 @@ def gen_malformed(rng, tier, n_quick=1500, n_thorough=20000):
                 k = rng.randrange(len(t) + 1)
                 t = t[:k] + rng.choice(SOUP_CHARS) + t[k:]
         cases.append(nm(f"m{i}", [("f", t)]))
+    return cases
+
+
+# ------------------------------------------------------------------ documents that carry their abstract form
+def doc_case(name, d, style, rseed, wf=True):
+    text, _ = gen.render(gen.tokens(d), random.Random(rseed), style)
+    return {"name": name, "files": [("f", text)], "doc": d, "style": style, "rseed": rseed, "wf": wf}
+
+
+def rerender(case, d):
+    c = doc_case(case["name"], d, case["style"], case["rseed"], case.get("wf"))
+    return c
+
+
+def gen_wellformed(rng, tier, n_quick=500, n_thorough=8000, pdoc=0.2, styles=("min", "space", "wild", "safe")):
+    """every document rendered in several layouts"""
+    cases = []
+    n = n_quick if tier == "quick" else n_thorough
+    for i in range(n):
+        d = gen.gen_doc(rng, opts={"pdoc": pdoc})
+        for st in styles:
+            cases.append(doc_case(f"d{i}_{st}", d, st, rng.randrange(1 << 30)))
+    return cases
+
+
+# known-malformed families (C03): keyword / reserved word as a name, no package, several items, trailing text
+def gen_known_malformed(rng, n):
+    cases = []
+    kw = sorted(set(gen.KEYWORDS + gen.RESERVED))
+    for i in range(n):
+        d = gen.gen_doc(rng, opts={"pdoc": 0.0, "nmembers": rng.choice([1, 2, 3])})
+        toks = [t.text for t in gen.tokens(d)]
+        fam = rng.choice(["kwname", "nopackage", "twoitems", "trailing", "kwmember", "kwpackage"])
+        if fam == "kwname":
+            k = toks.index("{") - 1
+            toks[k] = rng.choice(kw)
+        elif fam == "nopackage":
+            toks = toks[toks.index(";") + 1:]
+        elif fam == "twoitems":
+            toks = toks + ["interface", "Second", "{", "}"]
+        elif fam == "trailing":
+            toks = toks + [rng.choice(["x", ";", "}", "1", "@A", "package"])]
+        elif fam == "kwpackage":
+            toks[1] = rng.choice(kw)
+        else:
+            # a keyword where a member name is expected
+            idx = [j for j, t in enumerate(toks) if j > toks.index("{") and j + 1 < len(toks) and toks[j + 1] in ("(", ";", "=") and re.fullmatch(r"[A-Za-z_]\w*", t)]
+            if not idx:
+                continue
+            toks[rng.choice(idx)] = rng.choice(kw)
+        text = join_tokens(toks, rng, rng.choice(["space", "min", "wild"]))
+        cases.append({"name": f"k{i}_{fam}", "files": [("f", text)], "wf": False, "note": fam})
+    return cases
+
+
+# ------------------------------------------------------------------ C14: one malformed member
+GARBAGE = [t for t in VOCAB if t not in (";", "{", "}", "#", "é")]
+
+
+def gen_C14(rng, tier):
+    cases = []
+    n = 500 if tier == "quick" else 8000
+    i = 0
+    while len(cases) < n:
+        i += 1
+        d = gen.gen_doc(rng, opts={"pdoc": 0.15, "nmembers": rng.choice([1, 2, 3, 4, 5])})
+        toks = gen.tokens(d)
+        texts = [t.text for t in toks]
+        ob = texts.index("{", texts.index(d["name"]))
+        head = toks[:ob + 1]
+        enum = d["kind"] == "enum"
+        term = "," if enum else ";"
+        groups = []
+        for m in d["members"]:
+            g = gen.member_tokens(m)
+            groups.append(g + ([gen.Tok(",")] if enum else []))
+        k = rng.randrange(len(groups) + 1)          # position of the malformed member among the good ones
+        pool = [t for t in GARBAGE if not (enum and t == ",")]
+        if rng.random() < 0.25:
+            # exhaustive-ish short garbage
+            garbage = [rng.choice(pool) for _ in range(rng.choice([1, 2, 3]))]
+        else:
+            garbage = [rng.choice(pool) for _ in range(rng.choice([1, 2, 4, 6, 9]))]
+        bad = [gen.Tok(t) for t in garbage] + [gen.Tok(term)]
+        a_toks = head + [t for g in groups[:k] for t in g] + bad + [t for g in groups[k:] for t in g] + [gen.Tok("}")]
+        b_toks = head + [t for g in groups for t in g] + [gen.Tok("}")]
+        style = rng.choice(["space", "space", "safe"])
+        seed = rng.randrange(1 << 30)
+        ta, spans = gen.render(a_toks, random.Random(seed), style)
+        tb, _ = gen.render(b_toks, random.Random(seed), "space")
+        g0 = len(head) + sum(len(g) for g in groups[:k])
+        extent = (spans[g0][0], spans[g0 + len(bad) - 1][1])
+        cases.append({"name": f"g{i}", "files": [("a", ta), ("b", tb)], "extent": extent, "k": k, "garbage": garbage,
+                      "nmembers": len(groups), "note": " ".join(garbage) + " " + term})
+    return cases
+
+
+# ------------------------------------------------------------------ C01: sets of files, large and deep inputs
+def gen_C01(rng, tier):
+    cases = gen_malformed(rng, tier, 1200, 20000)
+    # sets of up to 6 files, some malformed
+    n = 200 if tier == "quick" else 3000
+    for i in range(n):
+        fs = gen.gen_project(rng)
+        files = gen.render_project(fs, rng)
+        for k in range(len(files)):
+            if rng.random() < 0.3:
+                fid, t = files[k]
+                files[k] = (fid, inject_unicode(rng, t) if rng.random() < 0.5 else join_tokens(mutate_tokens(rng, t.split()), rng, "space"))
+        cases.append(nm(f"s{i}", files))
+    # deep generic nesting and large inputs
+    for depth in ([8, 32, 64] if tier == "quick" else [8, 16, 32, 48, 64]):
+        t = "String"
+        for k in range(depth):
+            t = rng.choice([f"List<{t}>", f"Map<String,{t}>", f"{t}[]"])
+        cases.append(nm(f"deep{depth}", [("f", f"package p; parcelable P {{ {t} x; }}")]))
+    sizes = [4000, 20000] if tier == "quick" else [4000, 20000, 65536]
+    for sz in sizes:
+        parts = ["package p; interface I {"]
+        k = 0
+        while sum(len(x) for x in parts) < sz:
+            parts.append(f"/** doc {k} é */ void m{k}(in int a{k}, out List<String> b) = {k};")
+            k += 1
+        parts.append("}")
+        cases.append(dict(nm(f"big{sz}", [("f", "\n".join(parts))]), nomodel=sz > 6000))
+        cases.append(dict(nm(f"bigsoup{sz}", [("f", char_soup(rng, sz // 4))]), nomodel=sz > 6000))
+    return cases
+
+
+def gen_C02(rng, tier):
+    return gen_wellformed(rng, tier, 350, 6000, pdoc=0.2)
+
+
+def gen_C03(rng, tier):
+    cases = gen_wellformed(rng, tier, 120, 2000, pdoc=0.1, styles=("min", "wild"))
+    cases += gen_known_malformed(rng, 500 if tier == "quick" else 8000)
+    m = gen_malformed(rng, tier, 800, 12000)
+    for c in m:
+        c["wf"] = None
+    cases += m
+    # lexical corner cases
+    lex = ["package p; interface doubles { void f(); }", "package p; interface I { void inout2(in int in_); }",
+           "package p; interface I { void f(Listing x, int_ y, Maps z); }", "package p; parcelable P { int x = 1.; }",
+           "package p; parcelable P { String s = \"unterminated; }", "package p; /* unterminated", "package p; interface I { void f() = -1; }",
+           "package p; interface I { void do(); }", "package p; interface I { void f(int double); }", "package p.class; interface I {}",
+           "package p; import a.new.B; interface I {}", "package p; enum E { true }", "package p; interface I { @in void f(); }",
+           "package p; interface I { void f(@A(for=1) int x); }", "package p; parcelable P { if.x y; }"]
+    for i, t in enumerate(lex):
+        cases.append({"name": f"lex{i}", "files": [("f", t)], "wf": True if (i < 3 or "@in" in t) else False})
+    return cases
+
+
+def gen_C04(rng, tier):
+    cases = gen_wellformed(rng, tier, 250, 4000, pdoc=0.2)
+    for c in list(cases):
+        if c["style"] in ("space", "safe") and rng.random() < 0.5:
+            c2 = dict(c, name=c["name"] + "_u")
+            c2["files"] = [("f", inject_unicode(rng, c["files"][0][1]))]
+            c2["doc"] = None
+            cases.append(c2)
+    m = gen_malformed(rng, tier, 600, 10000)
+    cases += m
+    return cases
+
+
+def gen_C18(rng, tier):
+    """documents with doc comments in the arrangements of the property's quantifier, safe layouts"""
+    cases = []
+    n = 400 if tier == "quick" else 6000
+    for i in range(n):
+        d = gen.gen_doc(rng, opts={"pdoc": 0.6})
+        cases.append(doc_case(f"d{i}", d, rng.choice(["safe", "safe", "space", "min"]), rng.randrange(1 << 30)))
+    # explicit arrangements around one member
+    docs = [" simple ", "\n * two\n * lines\n ", "\r\n * para one\r\n *\r\n * para two\r\n * @param x the é\r\n ", " 日本語 \U0001f600 "]
+    exp = ["simple", "two lines", "para one\npara two\n@param x the é", "日本語 \U0001f600"]
+    arrangements = [
+        ("none", "{C}", None), ("ordinary", "/* plain */ {C}", None), ("line", "// plain\n{C}", None),
+        ("doc", "/**{D}*/ {C}", 0), ("doc_then_ordinary", "/**{D}*/ /* plain */ // more\n {C}", 0),
+        ("two_docs", "/** first */ /**{D}*/ {C}", 0), ("doc_annot", "/**{D}*/ @A @B(x=1) {C}", 0),
+        ("prev_member", "/**{D}*/ void prev(); {C}", None), ("doc_crlf", "/**{D}*/\r\n\r\n\t{C}", 0),
+    ]
+    k = 0
+    for name, tmpl, has in arrangements:
+        for j, dtext in enumerate(docs):
+            body = tmpl.replace("{D}", dtext).replace("{C}", "void target();")
+            cases.append({"name": f"arr{k}", "files": [("f", "package p; interface I { void first(); " + body + " void last(); }")],
+                          "expect_doc": ("target", exp[j] if has is not None else None), "note": name})
+            k += 1
     return cases
